@@ -565,6 +565,9 @@ func c03World(r *rand.Rand, exact bool) *World {
 	segs := gen.Names(r, 4+r.Intn(3), gen.NameOpts{Unicode: true, Spaces: true, Punct: ".,'()&+-", MaxLen: 6})
 	mk := func() string {
 		d := 1 + r.Intn(4)
+		if r.Intn(12) == 0 {
+			d = 9 + r.Intn(8) // deep category chains (up to 16 segments)
+		}
 		var ps []string
 		for i := 0; i < d; i++ {
 			ps = append(ps, segs[r.Intn(len(segs))])
